@@ -3,9 +3,9 @@ package ledger
 import (
 	"crypto/sha256"
 	"encoding/json"
+	"fmt"
 	"math/big"
 	"reflect"
-	"strconv"
 	"strings"
 
 	"github.com/formancehq/stack/libs/go-libs/metadata"
@@ -192,7 +192,12 @@ func (s *SetMetadataLogPayload) UnmarshalJSON(data []byte) error {
 		id = ""
 		err = json.Unmarshal(x.TargetID, &id)
 	case strings.ToUpper(MetaTargetTypeTransaction):
-		id, err = strconv.ParseUint(string(x.TargetID), 10, 64)
+		// transaction ids are unbounded: the entry was written from a *big.Int
+		txID, ok := new(big.Int).SetString(string(x.TargetID), 10)
+		if !ok {
+			err = fmt.Errorf("invalid transaction id '%s'", string(x.TargetID))
+		}
+		id = txID
 	default:
 		panic("unknown type")
 	}
